@@ -57,6 +57,8 @@ def _run(ctx):
     rd = ctx.rule('R36.d', 'new nodes RED with nil children; root blackened', floor=3)
     re_ = ctx.rule('R36.e', 'remove: x->parent assigned on every path to delete_fixup; colour of the spliced node gates the fix-up', floor=5)
     check_remove(ctx, u, re_)
+    rf = ctx.rule('R36.f', 'fix-ups: a colour that is copied is read before it is overwritten (recolouring order within a case)', floor=2)
+    check_copy_order(ctx, u, rf)
 
     fl = u.func('parsec_rbtree_left_rotate'); fr = u.func('parsec_rbtree_right_rotate')
     ctx.functions_analysed.update([fl.name, fr.name])
@@ -220,6 +222,31 @@ def _single(f, nid):
 #        its value: by a direct store, or by transplant(tree, u, <same node as x>) - and
 #        transplant assigns v->parent on all of its paths.
 # ---------------------------------------------------------------------------------------
+def check_copy_order(ctx, u, rf):
+    """In the fix-up cases the sibling inherits the parent's colour and the parent is then blackened: the copy
+    `A->color = B->color` must read B->color before the case stores a constant into it.  The mirror rule cannot
+    see this when both halves are edited alike; the order is visible inside the basic block."""
+    for name in ('parsec_rbtree_delete_fixup', 'parsec_rbtree_insert_fixup', 'parsec_rbtree_remove'):
+        f = u.func(name); ctx.functions_analysed.add(name)
+        for b in f.blocks:
+            evs = [e for e in f.block_events(b) if e.kind in ('store', 'call')]
+            for i, e in enumerate(evs):
+                if e.kind != 'store' or e.rhs is None or e.rhs.k != 'mem' or e.rhs.n != 'color' or e.lhs.k != 'mem' or e.lhs.n != 'color':
+                    continue
+                src = e.rhs.s
+                clobber = None
+                for p_ in evs[:i]:
+                    if p_.kind == 'store' and p_.lhs.s == src:
+                        clobber = p_
+                    elif p_.kind == 'store' and clobber is not None and p_.lhs.k == 'ref' and p_.lhs.s in [x.s for x in e.rhs.walk() if x.k == 'ref']:
+                        clobber = None      # the base pointer was redefined: another node
+                    elif p_.kind == 'call' and clobber is not None:
+                        clobber = None      # a rotation in between changes who is whose parent
+                rf.expect(clobber is None, 'copy-order:%s:%s' % (name, e.lhs.s), e.loc,
+                          '%s: %s is copied from %s after %s was overwritten at %s - the copy always yields that constant' % (name, e.lhs.s, src, src, clobber.loc if clobber else ''),
+                          note='%s: %s = %s reads the colour before it is overwritten' % (name, e.lhs.s, src))
+
+
 def check_remove(ctx, u, re_):
     tr = u.func('parsec_rbtree_transplant')
     f = u.func('parsec_rbtree_remove')
